@@ -1,0 +1,12 @@
+//go:build verif
+
+package radius
+
+// VerifC08SetServerPort sets the port of configured server idx under the
+// client's own mutex (check C08 switches between the harness's RADIUS server
+// and a closed port per request to script outages).
+func (c *Client) VerifC08SetServerPort(idx, port int) {
+	c.mu.Lock()
+	c.servers[idx].Port = port
+	c.mu.Unlock()
+}
